@@ -11,6 +11,11 @@
 #include "exq.h"
 #elif VQ_SCALAR == 3
 #include "hp.h"
+#elif VQ_SCALAR == 4
+#include "exq.h"
+#include "dual.h"
+#elif VQ_SCALAR == 5
+#include "dual.h"
 #endif
 #include <manif/manif.h>
 #include "run.h"
@@ -40,6 +45,25 @@ template<> struct ScalarIO<S> {
     if(std::isnan((double)x)) return "nan"; if(std::isinf((double)x)) return x>0?"inf":"-inf";
     return mpq_class((double)x).get_str(); }      // exact value of the float
 };
+#elif VQ_SCALAR == 4 || VQ_SCALAR == 5
+#if VQ_SCALAR == 4
+using BaseS = vq::ExQ;
+template<> struct ScalarIO<BaseS> {
+  static BaseS parse(const std::string& s){ mpq_class q(s); q.canonicalize(); return BaseS(q); }
+  static std::string print(const BaseS& x){ return x.v.get_str(); } };
+#else
+using BaseS = double;
+template<> struct ScalarIO<BaseS> {
+  static BaseS parse(const std::string& s){ mpq_class q(s); q.canonicalize(); mpfr_t f; mpfr_init2(f,53); mpfr_set_q(f,q.get_mpq_t(),MPFR_RNDN); double d=mpfr_get_d(f,MPFR_RNDN); mpfr_clear(f); return d; }
+  static std::string print(const BaseS& x){ if(std::isnan(x)) return "nan"; if(std::isinf(x)) return x>0?"inf":"-inf"; return mpq_class(x).get_str(); } };
+#endif
+using S = vq::Dual<BaseS>;
+template<> struct ScalarIO<S> {
+  static S parse(const std::string& s){ return S(ScalarIO<BaseS>::parse(s), BaseS(0)); }
+  static std::string print(const S& x){ return ScalarIO<BaseS>::print(x.a); } };
+template<> struct DualIO<S> { static constexpr bool value=true;
+  static S make(const std::string& p, const std::string& d){ return S(ScalarIO<BaseS>::parse(p), ScalarIO<BaseS>::parse(d)); }
+  static std::string primal(const S& x){ return ScalarIO<BaseS>::print(x.a); } static std::string dualpart(const S& x){ return ScalarIO<BaseS>::print(x.b); } };
 #else
 using S = vq::hp;
 template<> struct ScalarIO<S> {
@@ -55,6 +79,9 @@ template<> struct ScalarIO<S> {
 #include "preds.h"
 #if VQ_GROUPSET >= 100
 #include "bundles.h"
+#endif
+#if VQ_SCALAR == 4 || VQ_SCALAR == 5
+#include "pred12.h"
 #endif
 
 #if VQ_GROUPSET == 1
@@ -79,6 +106,11 @@ static bool dispatch(const Case& c, Out<S>& o){
   VQ_GROUPS
 #undef X
 #endif
+#if VQ_SCALAR == 4 || VQ_SCALAR == 5
+#define X(name, type) if(c.group==name && c.op=="P12") return Pred12<type>::run(c,o);
+  VQ_GROUPS
+#undef X
+#endif
 #define X(name, type) if(c.group==name) return (c.op.size()>1 && (c.op[0]=='P' || c.op[0]=='J' || c.op[0]=='W') && isdigit(c.op[1])) ? Pred<type>::run(c,o) : (GroupRunner<type>::run(c,o) || GroupRunner2<type>::run(c,o));
   VQ_GROUPS
 #undef X
@@ -91,7 +123,7 @@ int main(int argc, char** argv){
   std::string line; Case c;
   while(std::getline(*in,line)){
     if(!parse_case(line,c)) continue;
-#if VQ_SCALAR == 0
+#if VQ_SCALAR == 0 || VQ_SCALAR == 4
     vq::oracle_log().clear(); vq::angle_registry().clear();
 #endif
     std::string res;
@@ -101,14 +133,14 @@ int main(int argc, char** argv){
     }
     catch(const manif::invalid_argument&){ res="exc invalid_argument"; }
     catch(const manif::runtime_error&){ res="exc runtime_error"; }
-#if VQ_SCALAR == 0
+#if VQ_SCALAR == 0 || VQ_SCALAR == 4
     catch(const vq::div_by_zero&){ res="exc div0"; }
 #endif
     catch(const std::bad_alloc&){ res="exc bad_alloc"; }
     catch(const std::logic_error&){ res="exc logic_error"; }
     catch(const std::exception& e){ res=std::string("exc other ")+e.what(); }
     std::cout << c.raw << "\n";
-#if VQ_SCALAR == 0
+#if VQ_SCALAR == 0 || VQ_SCALAR == 4
     std::map<std::tuple<int,std::string,std::string>,std::string> seen; bool conflict=false;
     for(auto& k: vq::oracle_log()){
       auto key=std::make_tuple(k.f,k.a.get_str(),k.b.get_str());
